@@ -274,4 +274,72 @@ theorem jobScript_no_injection (t : String × List SegLine) (ht : t ∈ Gen.jobT
   rw [jobScript_is_renderScript t ht j hT]
   exact jobScript_tokens t ht j hj hn
 
+/-! ## Audit follow-up -/
+
+/-- The regenerated facts the job-script theorems rest on were really extracted from the tree
+(none of them may silently fall back to a committed default). -/
+theorem job_facts_extracted :
+    Gen.shellEscapes_extracted = true ∧ Gen.jobScriptParams_extracted = true ∧
+    Gen.jobScriptKeys_extracted = true ∧ Gen.jobTemplates_extracted = true ∧
+    Gen.jobResOpts_extracted = true := by decide
+
+theorem mem_of_lookup {k v : Bytes} : ∀ {l : List (Bytes × Bytes)}, l.lookup k = some v → (k, v) ∈ l
+  | [], h => by cases h
+  | (a, b) :: t, h => by
+    simp only [List.lookup] at h
+    split at h
+    · rename_i e
+      have : k = a := by simpa using e
+      cases h
+      simp [this]
+    · exact List.mem_cons_of_mem _ (mem_of_lookup h)
+
+/-- LOW-2: the hypothesis `JobOK.res` (the substituted resources option is absent or a
+one-line comment) HOLDS for every job whose `resopt` is one of the shipped `config.json` and
+whose MRO_JOBRESOURCES mapping values contain no newline — `mappedResources j` itself, not
+only `replaceFirst`. -/
+theorem shipped_resopt_gives_JobOK_res (j : JobIn) (h : ∃ p ∈ Gen.jobResOpts, p.2 = j.resOpt)
+    (hm : ∀ kv ∈ j.mappings, (0x0A : UInt8) ∉ kv.2) :
+    mappedResources j = [] ∨ ∃ r, mappedResources j = 0x23 :: r ∧ (0x0A : UInt8) ∉ r := by
+  unfold mappedResources
+  split
+  · exact Or.inl rfl
+  · split
+    · rename_i res hl
+      right
+      obtain ⟨p, hp, he⟩ := h
+      have hd := resopts_are_directives
+      rw [List.all_eq_true] at hd
+      have := hd p hp
+      rw [he] at this
+      split at this
+      · rename_i r heq
+        have hr : (0x0A : UInt8) ∉ r := by simpa using this
+        rw [heq]
+        exact resources_option_is_comment res r hr (hm _ (mem_of_lookup hl))
+      · cases this
+    · exact Or.inl rfl
+
+/-- Non-vacuity with a MAPPED resources option (`__special = highmem`, MRO_JOBRESOURCES
+`highmem:mem_free=64G`, the shipped sge `resopt`): the job is inside the domain and the raw text
+lands in the script as the directive `#$ -l mem_free=64G`. -/
+example : ∃ j : JobIn, JobOK j ∧ NoNl j ∧
+    mappedResources j = [0x23, 0x24, 0x20, 0x2D, 0x6C, 0x20, 0x6D, 0x65, 0x6D, 0x5F, 0x66, 0x72, 0x65,
+      0x65, 0x3D, 0x36, 0x34, 0x47] :=
+  ⟨{ tmpl := [], fqname := [0x49, 0x44], shellName := [0x6D], stdout := [0x2F, 0x6F],
+     stderr := [0x2F, 0x65], workdir := [0x2F, 0x77], threadEnvs := [],
+     envs := [], cmd := [0x2F, 0x70], argv := [], threads := 1, memGB := 1, vmemGB := 0,
+     threadsPerJob := 1, memGBPerJob := 1, extraVmemGB := 0, memGBPerCore := 0, alwaysVmem := false,
+     account := [0x61], special := [0x68, 0x69, 0x67, 0x68, 0x6D, 0x65, 0x6D],
+     mappings := [([0x68, 0x69, 0x67, 0x68, 0x6D, 0x65, 0x6D],
+       [0x6D, 0x65, 0x6D, 0x5F, 0x66, 0x72, 0x65, 0x65, 0x3D, 0x36, 0x34, 0x47])],
+     resOpt := [0x23, 0x24, 0x20, 0x2D, 0x6C, 0x20, 0x5F, 0x5F, 0x52, 0x45, 0x53, 0x4F, 0x55, 0x52, 0x43,
+       0x45, 0x53, 0x5F, 0x5F] },
+   { threadEnvs := by decide, envs := by decide, cmd := by decide, argv := by decide,
+     stdout := by decide, stderr := by decide, workdir := by decide,
+     res := Or.inr ⟨[0x24, 0x20, 0x2D, 0x6C, 0x20, 0x6D, 0x65, 0x6D, 0x5F, 0x66, 0x72, 0x65, 0x65, 0x3D, 0x36,
+       0x34, 0x47], by decide, by decide⟩ },
+   { fqname := by decide, shellName := by decide, stdout := by decide, stderr := by decide,
+     workdir := by decide, account := by decide }, by decide⟩
+
 end Props.C18
